@@ -1,0 +1,10 @@
+//go:build verif
+// +build verif
+
+// Contracts for package ifc, checked by /verif/cmd/govc (comment-only file; see /verif/DESIGN.md).
+package ifc
+
+// assumed: transactions decoded from the chain database have no nil input or output entries
+//@ func ChainFetcher.FetchTxBySha
+//@   requires recv != nil && txsha != nil
+//@   ensures result0 != nil ==> (forall qi_ int :: 0 <= qi_ && qi_ < len(result0.TxIn) ==> result0.TxIn[qi_] != nil) && (forall qo_ int :: 0 <= qo_ && qo_ < len(result0.TxOut) ==> result0.TxOut[qo_] != nil)
